@@ -555,8 +555,12 @@ def run_check(pid, tier, seed, repo, replay=None):
         ev = {"property_id": pid, "tier": tier, "seed": seed, "level": level, "coverage": cov,
               "assumptions": list(getattr(prop, "ASSUMPTIONS", [])) + [prop.LEVEL_NOTE],
               "wall_s": wall, "violations": len(with_input) + (1 if (without and not with_input) else 0)}
-        os.makedirs(os.path.join(VERIF, "evidence"), exist_ok=True)
-        with open(os.path.join(VERIF, "evidence", pid + ".json"), "w") as f:
+        # runs against a scratch copy of the repository (VERIF_REPO=<mutant>) must not overwrite the
+        # evidence of the real tree
+        evdir = os.path.join(VERIF, "evidence") if os.path.realpath(repo) == "/repo" else \
+            os.path.join(VERIF, ".scratch", "evidence-other-tree")
+        os.makedirs(evdir, exist_ok=True)
+        with open(os.path.join(evdir, pid + ".json"), "w") as f:
             json.dump(ev, f, indent=1, default=str)
     for l in lines:
         print(l)
